@@ -565,7 +565,8 @@ class Builder:
         return self.ctx.alloc("deque", init={"v": list(items)})
 
     def dict(self, d):
-        return self.ctx.alloc("dict", init={"v": {BI.hashable(k): (k, v) for k, v in d.items()}})
+        # keys may be symbolic values that the contract has assumed pairwise distinct (see builtins.dict_slot)
+        return self.ctx.alloc("dict", init={"v": {BI.dict_new_slot(k): (k, v) for k, v in d.items()}})
 
     def sdict(self, kty, vty, hint="d"):
         return BI.sdict_fresh(self.ctx, kty, vty, hint)
